@@ -198,6 +198,51 @@ func c18Run(w c18Work, rendezvous func()) (h uint64, err error) {
 		}
 		d.add(fmt.Sprint(b.Raw()))
 		memDigest(&d, mb)
+	case "emclones": // two clones of one parent emitter, each driven from its own goroutine
+		parent := asm.NewEmitter(make([]byte, 64), false)
+		parent.SetBase(0x008000 + w.Seed&0xff)
+		for i := 0; i < 3+int(w.Seed%5); i++ {
+			parent.BNE("fwd") // pending forward references: the reference list has spare capacity
+		}
+		parent.JMP_abs("far")
+		c1, c2 := parent.Clone(make([]byte, 64)), parent.Clone(make([]byte, 64))
+		ready()
+		var inner sync.WaitGroup
+		inner.Add(1)
+		go func() {
+			defer inner.Done()
+			c2.NOP()
+			c2.BEQ("fwd")
+			c2.JMP_abs("far")
+			c2.Label("fwd")
+			c2.Label("far")
+		}()
+		c1.BEQ("fwd")
+		c1.JMP_abs("far")
+		c1.NOP()
+		c1.NOP()
+		c1.Label("fwd")
+		c1.Label("far")
+		inner.Wait()
+		// clone 1 goes back into the parent; the image is fully determined
+		nb := 3 + int(w.Seed%5)
+		base := 0x008000 + w.Seed&0xff
+		parent.Append(c1)
+		ferr := parent.Finalize()
+		got := parent.Bytes()
+		target := base + uint32(2*nb+3+7)
+		var want []byte
+		for i := 0; i < nb; i++ {
+			want = append(want, 0xD0, byte(2*nb+3+7-(2*i+2)))
+		}
+		want = append(want, 0x4C, byte(target), byte(target>>8), 0xF0, 5, 0x4C, byte(target), byte(target>>8), 0xEA, 0xEA)
+		d.add(ferr == nil, got, c2.Bytes())
+		if ferr != nil || !bytes.Equal(got, want) {
+			return 0, fmt.Errorf("emclones(seed %d): after two clones of one parent were emitted into and the first was appended back, the image is % x (Finalize: %v), want % x", w.Seed, got, ferr, want)
+		}
+		if v, ok := c2.GetLabel("fwd"); !ok || v != base+uint32(2*nb+3+6) {
+			return 0, fmt.Errorf("emclones(seed %d): second clone's label is $%06x (%v)", w.Seed, v, ok)
+		}
 	case "emitter":
 		em := asm.NewEmitter(make([]byte, needOf(w.Ops)+8), true)
 		ready()
@@ -261,23 +306,11 @@ func c18Run(w c18Work, rendezvous func()) (h uint64, err error) {
 
 type c18Stats struct{ maxSameKind int32 }
 
-// c18Check runs the workloads one after another, then all at once on separate goroutines
-// released by a common barrier, and compares the digests.
+// c18Check runs the workloads all at once on separate goroutines released by a common barrier,
+// then one after another, and compares the digests.
 func c18Check(c c18Case, st *c18Stats) error {
-	seq := make([]uint64, len(c.Work))
-	for i, w := range c.Work {
-		h, err := c18Run(w, nil)
-		if err != nil {
-			return fmt.Errorf("sequential run: %v", err)
-		}
-		seq[i] = h
-		// determinism of the workload itself (a second sequential run)
-		if i < 2 || w.Kind == "emitter" || w.Kind == "rom" || w.Kind == "pure" {
-			if h2, _ := c18Run(w, nil); h2 != h {
-				return fmt.Errorf("workload %d %s(seed %d) is not deterministic even sequentially: %x vs %x", i, w.Kind, w.Seed, h, h2)
-			}
-		}
-	}
+	// the concurrent phase runs FIRST: lazily initialised package state (caches, memo tables) is still cold in the
+	// first round of a process, and a sequential reference run beforehand would warm it and hide its races
 	par := make([]uint64, len(c.Work))
 	errs := make([]error, len(c.Work))
 	// start/end times are written to per-workload slots and evaluated afterwards: no atomics or locks are shared
@@ -320,6 +353,20 @@ func c18Check(c c18Case, st *c18Stats) error {
 	if st != nil {
 		st.maxSameKind = maxSame
 	}
+	seq := make([]uint64, len(c.Work))
+	for i, w := range c.Work {
+		h, err := c18Run(w, nil)
+		if err != nil {
+			return fmt.Errorf("sequential run: %v", err)
+		}
+		seq[i] = h
+		// determinism of the workload itself (a second sequential run)
+		if i < 2 || w.Kind == "emitter" || w.Kind == "rom" || w.Kind == "pure" {
+			if h2, _ := c18Run(w, nil); h2 != h {
+				return fmt.Errorf("workload %d %s(seed %d) is not deterministic even sequentially: %x vs %x", i, w.Kind, w.Seed, h, h2)
+			}
+		}
+	}
 	for i, w := range c.Work {
 		if errs[i] != nil {
 			return fmt.Errorf("concurrent run: %v", errs[i])
@@ -361,7 +408,7 @@ func TestC18(t *testing.T) {
 		"digest must be unchanged and the race detector must stay silent.  Non-trivial = at least two workloads of the same kind were in flight together; distinct = hash(round).",
 		func(r *rig.Run) {
 			ev := r.Ev
-			kinds := []string{"system", "sysmap", "pri", "alt", "prifork", "altfork", "emitter", "rom", "pure"}
+			kinds := []string{"system", "sysmap", "pri", "alt", "prifork", "altfork", "emitter", "emclones", "rom", "pure"}
 			var overlapped int64
 			r.Rapid("rounds", rig.Pick(2, 30), func(t *rapid.T) {
 				// every kind at least twice per round (shared state is only exposed when two instances of the
